@@ -77,6 +77,44 @@ func TestReplay(t *testing.T) {
 	}
 }
 
+// TestRegress replays every saved case of one property (VERIF_REGRESS_DIR, VERIF_PROP):
+// shrunk counterexamples of defects that were found and fixed, and hand-written corner cases.
+// Each must pass; a failing file is reported as "REGRESS-FAIL file=<path>".
+func TestRegress(t *testing.T) {
+	dir, prop := os.Getenv("VERIF_REGRESS_DIR"), os.Getenv("VERIF_PROP")
+	if dir == "" {
+		t.Skip("no VERIF_REGRESS_DIR")
+	}
+	f := replayers[prop]
+	ents, _ := os.ReadDir(dir)
+	n := 0
+	for _, e := range ents {
+		if !strings.HasPrefix(e.Name(), prop+"-") || !strings.HasSuffix(e.Name(), ".json") {
+			continue
+		}
+		path := dir + "/" + e.Name()
+		b, err := os.ReadFile(path)
+		if err != nil {
+			t.Fatalf("REPLAY-HARNESS-ERROR: %v", err)
+		}
+		var doc struct {
+			Case json.RawMessage `json:"case"`
+		}
+		if err := json.Unmarshal(b, &doc); err != nil || f == nil {
+			t.Fatalf("REPLAY-HARNESS-ERROR: %s: %v", path, err)
+		}
+		n++
+		if fl := f(doc.Case); fl != nil {
+			if strings.Contains(fl.Msg, "REPLAY-HARNESS-ERROR") {
+				t.Fatalf("REPLAY-HARNESS-ERROR: %s: %s", path, fl.Msg)
+			}
+			fmt.Printf("REGRESS-FAIL file=%s\n%s\n", path, fl.Msg)
+			t.Fail()
+		}
+	}
+	fmt.Printf("REGRESS-COUNT %d\n", n)
+}
+
 // guard runs f and converts a panic into a failure carrying the stack.
 func guard(f func() *failure) (fl *failure) {
 	defer func() {
